@@ -112,7 +112,10 @@ def dimsOf (s0 : Shape) : Option Nat → List Nat
       ValueError unless every entry equals the first -/
 def ensureEqualDims (shapes : List Shape) (dim : Option Nat) : Except Err Unit :=
   match shapes with
-  | [] => .error .indexError                 -- to_check[0]
+  | [] =>
+    match dim with
+    | none => .error .indexError             -- to_check[0].ndim
+    | some _ => .ok ()                       -- all_dims = [], check = [True]: passes silently
   | s0 :: rest =>
     let dims := dimsOf s0 dim
     match pick s0 dims with
@@ -149,7 +152,6 @@ def handle (o : Protocol.Op) : Option String :=
       let some variant := o.str? "variant" | return "bad-op"
       let some vs := o.vecs.mapM id | return "bad-op"
       let some shapes := vs.mapM toNats? | return "bad-op"
-      if shapes.isEmpty then return "bad-op"
       let f : Option (Shape → Except Err Shape) := match fn, variant with
         | "vec", "fixed" => some ensureVector
         | "vec", "pinned" => some ensureVectorPinned
